@@ -476,3 +476,16 @@ def c14(run, selftest=True):
         "all item lists up to length 4 (quick) / 5 (thorough) over {k1, k2, ::k1, a::b} x {good, bad value} and literal items, for String / Ident / Path keys, "
         "checked by TLC against the declarative verdict, entry set and bag of mistakes, then executed on the five real instantiations x five value types "
         "(bool, u8, String, Expr, nested map), hash vs ordered compared leaf by leaf; random walks to length 12 over six keys likewise. A case is one (key kind, item list).")
+
+
+@plan("C07")
+def c07(run, selftest=True):
+    # every machine's replay runs the real entry points under catch_unwind; a panic is data (class "panic").
+    # The receiver machine additionally carries the design-level NoPanic invariant (the initializer's expect()
+    # is unreachable because ErrorCheck returns first).
+    focuses = ["hostile"] if run.tier == "quick" else ["hostile", "struct", "element", "clean"]
+    for fo in focuses:
+        receiver_stage(run, fo, {"panic"}, False, "C07 totality")
+    run.assumptions = RECV_ASSUME + ["a panic inside the code under test is caught with catch_unwind and reported as a violation with the input as replay file"]
+    return run.finish("model_checking", RECV_RULE + " For C07 the inputs include bodies that are not meta syntax at every depth, bare / name-value attributes, "
+                      "flags in every form, and receivers whose attrs member has nothing to receive; only panics count.")
